@@ -1,11 +1,22 @@
 import Oracle.Proto
 import Oracle.Ring
+import Oracle.Unbounded
+import Oracle.Queues
+import Oracle.Pump
 /-! Oracle suites of property C15. -/
 namespace Oracle.C15
 
 def suites : List (String × Suite) := [
   ("ring", Oracle.Ring.model),
-  ("ring-spec", Oracle.Ring.spec)
+  ("ring-spec", Oracle.Ring.spec),
+  ("unbounded", Oracle.Unbounded.model),
+  ("unbounded-spec", Oracle.Unbounded.spec),
+  ("lfq-seq", Oracle.Queues.lfqSeq),
+  ("mpsc-seq", Oracle.Queues.mpscSeq),
+  ("queue-seq-spec", Oracle.Queues.seqSpec),
+  ("queue-facts", Oracle.Queues.facts),
+  ("queue-judge", Oracle.Queues.judge),
+  ("pump-judge", Oracle.Pump.judge)
 ]
 
 end Oracle.C15
